@@ -942,12 +942,15 @@ class SparseArray:
             ndim, has_bool = get_array_properties(index)
             if has_bool:
                 if ndim == 1: 
-                    if vd == 0:
+                    if vd in (0, 1):
                         for i, j in enumerate(index):
                             if j: rows[i][:] = value
                     else:
+                        k = 0
                         for i, j in enumerate(index):
-                            if j: rows[i][:] = value[i]
+                            if j: 
+                                rows[i][:] = value[k]
+                                k += 1
                 else:
                     self[index.nonzero() if hasattr(index, 'nonzero') else np.nonzero(index)] = value
                 return
